@@ -1,4 +1,62 @@
-From ZV Require Import Base.Bytes C24.Ops C24.Model C25.Model C25.Spec.
-Theorem C25_placeholder : apply_signals [] [] = [].
-Proof. reflexivity. Qed.
-Print Assumptions C25_placeholder.
+(* Properties/C25.v — ObjectManager signals track the managed object set.
+   Only statements, each closed by [exact] of a lemma of C25/Proofs.v, and their assumptions.
+   after h = (server tree, client views) once the history h has run from a fresh server and a client
+   that knows nothing: the server is the model of at/remove with their InterfacesAdded /
+   InterfacesRemoved emission (C24/Model.v), the client is the replay of C25/Spec.v (apply the
+   signals of the step in order; drop the session of a path where no manager answers).
+   listing t m = the reply to GetManagedObjects at m (None if the call fails);  triple v o k = the
+   properties of interface k of object o in a view or a listing.
+   Known_C25 h: some step of h, read on the server state before it, (1) successfully registers or
+   removes a user interface at a path that has two or more proper ancestors carrying an
+   ObjectManager, or (2) removes the last user interface of a non-root node that has at least one
+   such ancestor while some strict descendant carries a user interface (C25/Model.v, flag25). *)
+From ZV Require Import Base.Bytes Base.Res C24.Ops C24.Model C25.Model C25.Spec C25.System C25.Proofs.
+
+(* For every history outside the two known classes, after every prefix of it, for every manager
+   that answers: the client's replayed view and the manager's listing contain the same
+   (object, interface, properties) triples — interface-less paths do not count, and the properties
+   are the current ones. *)
+Theorem C25_sync_partial : forall h : list op, ~ Known_C25 h ->
+  forall pre post, h = pre ++ post ->
+    forall m lst, listing (fst (after pre)) m = Some lst ->
+      forall o k, triple (view_of (snd (after pre)) m) o k = triple lst o k.
+Proof. exact sync_partial. Qed.
+Print Assumptions C25_sync_partial.
+
+(* non-vacuity: a 12-step history under a manager at / (two levels of objects, a property-carrying
+   interface re-registered with a new value, a leaf node deleted, the manager removed and registered
+   again over a populated tree) is outside the known classes, and its final listing is populated *)
+Theorem C25_partial_nonvacuous : ~ Known_C25 h_sync /\
+  exists lst, listing (fst (after h_sync)) [] = Some lst /\
+    triple lst [B "a"; B "b"] I1 = Some [(B "Val", 6%N)] /\ triple lst [B "a"] I1 = Some [(B "Val", 2%N)] /\
+    triple lst [B "x"] I1 = Some [(B "Val", 12%N)].
+Proof. exact h_sync_ok. Qed.
+Print Assumptions C25_partial_nonvacuous.
+
+(* known finding 1: managers at / and /a; at(/a/b, I1) is announced by /a only, yet / lists it *)
+Theorem C25_nested_refuted :
+  let h := [At [] KM 1; At [B "a"] KM 2; At [B "a"; B "b"] K1 3] in
+  (exists lst, listing (fst (after h)) [] = Some lst /\
+     triple lst [B "a"; B "b"] I1 = Some [(B "Val", 3%N)] /\
+     triple (view_of (snd (after h)) []) [B "a"; B "b"] I1 = None) /\
+  first_flag25 root0 h = Some NestedManagers.
+Proof. exact nested_refuted. Qed.
+Print Assumptions C25_nested_refuted.
+
+(* known finding 2: manager at /; removing the last interface of /a deletes /a/b silently: the
+   listing has lost I2 at /a/b, the client still holds it *)
+Theorem C25_subtree_refuted :
+  let h := [At [] KM 1; At [B "a"] K1 2; At [B "a"; B "b"] K2 3; Rm [B "a"] K1] in
+  (exists lst, listing (fst (after h)) [] = Some lst /\
+     triple lst [B "a"; B "b"] I2 = None /\
+     triple (view_of (snd (after h)) []) [B "a"; B "b"] I2 = Some []) /\
+  first_flag25 root0 h = Some SubtreeSilent.
+Proof. exact silent_refuted. Qed.
+Print Assumptions C25_subtree_refuted.
+
+(* hence the statement at full strength is false on this tree *)
+Theorem C25_full_statement_refuted : ~ (forall h pre post : list op, h = pre ++ post ->
+    forall m lst, listing (fst (after pre)) m = Some lst ->
+      forall o k, triple (view_of (snd (after pre)) m) o k = triple lst o k).
+Proof. exact full_statement_false. Qed.
+Print Assumptions C25_full_statement_refuted.
